@@ -1353,6 +1353,7 @@ def run(tier, verif_seed, log=print):
 
     ck = Checker(tier, verif_seed, log)
     log(f"[C14] tier={tier} VERIF_SEED={verif_seed} root={ck.root} repo={bootstrap.repo_head()}")
+    bootstrap.warm_pattern_caches(log)
     atlas = atlas_mod.build(workers=_cpu())
     gen = RunGen(atlas, tier)
     grid = gen.grid(ck.root)
